@@ -443,9 +443,23 @@ class Gen:
                 elif k < 0.85:
                     rng = f"{self.r.choice(['6', '5'])}, {self.r.choice(['0', '1'])}, {self.r.choice(['-1', '-2'])}"
                     self.used.add("for_range_negative_step")
-                else:
+                elif k < 0.93:
                     rng = f"{self.r.choice(DEVS[:6])}.Idle % 4"
                     self.used.add("for_range_dynamic_bound")
+                else:
+                    # bound (and sometimes step) held in a local whose last textual use is the loop header: the
+                    # emitted test and increment read it on every iteration
+                    n = self.names.new("n")
+                    out.append(f"{pad}{n} = ({self.r.choice(DEVS[:6])}.Idle % 4) + 1")
+                    rng = n
+                    kk = self.r.random()
+                    if kk < 0.3:
+                        rng = f"1, {n}"
+                    elif kk < 0.5:
+                        st_ = self.names.new("n")
+                        out.append(f"{pad}{st_} = ({self.r.choice(DEVS[:6])}.Error) + 1")
+                        rng = f"0, {n}, {st_}"
+                    self.used.add("for_range_local_bound")
                 out.append(f"{pad}for {i} in range({rng}):")
                 out += self.block(vs + [i], ind + 1, depth + 1, "for", fn, budget, assignable)
             elif c < 0.78 and depth < 2 and self.f["while_loops"]:
